@@ -310,10 +310,12 @@ class RefResult(object):
     def __init__(self):
         self.trace = []          # Fractions and strs, in PRINT#1 order
         self.final = None        # (code, line|None) when the program stopped with an error
+        self.errors = []         # every untrapped error, in order (one per RUN / direct line)
         self.unspec = None       # reason, when the semantics stop being fixed
         self.budget = False
         self.stats = {}
         self.flags = set()
+        self.ztlist_lines = set()   # lines of NEXT lists entered in the middle by a zero-trip FOR
         self.vars = {}
 
     def __repr__(self):
@@ -469,6 +471,7 @@ class Ref(object):
                 # fell off the end of the program (or of the direct line)
                 if self.resume_pos is not None and self.cur_li != DIRECT:
                     res.final = (19, None)
+                    res.errors.append(res.final)
                     res.flags.add('no-resume')
                 return
             self.stats['steps'] += 1
@@ -509,7 +512,10 @@ class Ref(object):
             return self.norm(self.target(self.on_error))
         if self.in_handler:
             res.flags.add('error-in-handler')
+        if self.cur[0] == DIRECT:
+            line = None             # direct-mode messages carry no line number
         res.final = (code, line)
+        res.errors.append(res.final)
         raise _Stop()
 
     def after(self, pc):
@@ -552,6 +558,10 @@ class Ref(object):
             return ret
         if k == 'end':
             res.flags.add('end')
+            if self.in_handler:
+                res.flags.add('end-in-handler')
+            self.in_handler = False
+            self.resume_pos = None
             raise _Stop()
         if k == 'if':
             c = self.ev(a['c'])
@@ -631,7 +641,9 @@ class Ref(object):
             if a['to'] == 0 and self.in_handler:
                 # GW-BASIC: stops with the message of the error being handled
                 res.flags.add('onerr0-in-handler')
-                res.final = (int(self.vars['ERR']), int(self.vars['ERL']))
+                erl = int(self.vars['ERL'])
+                res.final = (int(self.vars['ERR']), None if erl == 65535 else erl)
+                res.errors.append(res.final)
                 raise _Stop()
             return nxt
         if k == 'resume':
@@ -673,6 +685,10 @@ class Ref(object):
     def do_fault(self, pc, a):
         ok = a.get('ok')
         if ok is None or self.ev(ok) == 0:
+            if a.get('soft') and not self.on_error:
+                # float Division by zero / Overflow without a trap: GW-BASIC prints the message
+                # and continues with machine infinity; the property statement says "stops"
+                raise Unspec('soft arithmetic error without a trap')
             raise _Err(a['code'])
         if a.get('sets'):
             self.setvar(a['sets'], self.ev(a['val']) if a.get('val') is not None else F(1))
@@ -720,6 +736,7 @@ class Ref(object):
             na = self.atoms_of(nx[0])[nx[1]]
             if nx[2] + 1 < len(na['slots']):
                 self.res.flags.add('zerotrip-into-next-list')
+                self.res.ztlist_lines.add(self.linenum(nx[0]))
                 self.zt_cont = True
                 return self.do_next((nx[0], nx[1]), na, nx[2] + 1)
             return (nx[0], nx[1] + 1)
@@ -1161,6 +1178,8 @@ class Compiler(object):
         kinds = set(st['t'] for st in allst)
         self.has_fornonext = 'fornonext' in kinds
         self.has_whilenowend = 'whilenowend' in kinds
+        # statements that stop a trap-less program are capped per program (they hide the rest)
+        self.fatal_left = case.get('maxfatal', 1)
         self.nsubs = len(case.get('subs', []))
         self.sublabels = [self.label() for _ in range(self.nsubs)]
 
@@ -1189,6 +1208,12 @@ class Compiler(object):
         cur.atoms.append(atom)
         return cur, len(cur.atoms) - 1
 
+    def fatal(self):
+        if self.fatal_left <= 0:
+            return False
+        self.fatal_left -= 1
+        return True
+
     def tag(self, ctx, nl=False):
         self.tagno += 1
         return self.emit({'k': 'pr', 'items': [['n', 1000 + self.tagno]]}, nl, ctx.inline)
@@ -1201,7 +1226,15 @@ class Compiler(object):
     def cond(self, spec, ctx):
         if spec['k'] == 'ctr' and ctx.loops:
             lp = ctx.loops[-1 - (spec['up'] % len(ctx.loops))]
-            return ['b', spec['op'], ['v', lp['var']], ['n', spec['c']]]
+            c = spec['c']
+            if lp['kind'] == 'for':
+                # c counts iterations: compare with the counter value of the c-th trip
+                fs = lp['st']
+                c = F(fs['a']) + F(c) * F(1 if fs.get('s') is None else fs['s'])
+                c = int(c) if c.denominator == 1 else float(c)
+                if not -32768 <= c <= 32767:
+                    c = fs['a']
+            return ['b', spec['op'], ['v', lp['var']], ['n', c]]
         if spec['k'] == 'ctr':
             return ['n', 1 if spec['c'] % 2 else 0]
         return ['n', spec['v']]
@@ -1217,7 +1250,10 @@ class Compiler(object):
                     e = ['b', '+', e, ['n', spec['c']]]
                 return e
             return ['n', spec.get('c', 0) % 4]
-        return ['n', spec['v']]
+        v = spec['v']
+        if (v <= -0.5 or v >= 255.5) and not self.fatal():
+            v = int(abs(v)) % 5
+        return ['n', v]
 
     # -- blocks ---------------------------------------------------------------------------
     def block(self, blk, ctx):
@@ -1258,8 +1294,10 @@ class Compiler(object):
             else:
                 lp = fl[-1 - (st.get('up', 0) % len(fl))]
                 self.features.add('counter-modified')
+                # always in the direction of the step (the other way never terminates)
+                sgn = -1 if (lp['st'].get('s') or 1) < 0 else 1
                 self.emit({'k': 'let', 'var': lp['var'],
-                           'e': ['b', '+', ['v', lp['var']], ['n', st['d']]]}, nl, inl)
+                           'e': ['b', '+', ['v', lp['var']], ['n', abs(st['d']) * sgn]]}, nl, inl)
         elif t == 'gosub':
             el = list(range(ctx.r + 1, self.nsubs + 1))
             if not el:
@@ -1269,8 +1307,11 @@ class Compiler(object):
                 self.features.add('gosub')
                 self.emit({'k': 'gosub', 'to': self.sublabels[k - 1]}, nl, inl)
         elif t == 'return':
-            self.features.add('early-return' if ctx.r else 'stray-return')
-            self.emit({'k': 'return'}, nl, inl)
+            if ctx.r == 0 and not self.fatal():
+                self.tag(ctx, nl)
+            else:
+                self.features.add('early-return' if ctx.r else 'stray-return')
+                self.emit({'k': 'return'}, nl, inl)
         elif t == 'end':
             self.features.add('end')
             self.emit({'k': 'end'}, nl, inl)
@@ -1284,19 +1325,19 @@ class Compiler(object):
                 self.features.add('early-exit')
                 self.emit({'k': 'goto', 'to': lp['after']}, nl, inl)
         elif t == 'snext':
-            if ctx.in_for or self.has_fornonext:
+            if ctx.in_for or self.has_fornonext or not self.fatal():
                 self.tag(ctx, nl)
             else:
                 self.features.add('stray-next')
                 self.emit({'k': 'next', 'slots': [[st.get('var'), None]]}, nl, inl)
         elif t == 'swend':
-            if ctx.in_while or self.has_whilenowend:
+            if ctx.in_while or self.has_whilenowend or not self.fatal():
                 self.tag(ctx, nl)
             else:
                 self.features.add('stray-wend')
                 self.emit({'k': 'wend'}, nl, inl)
         elif t == 'fornonext':
-            if ctx.in_for or inl:
+            if ctx.in_for or inl or not self.fatal():
                 self.tag(ctx, nl)
             else:
                 self.features.add('for-without-next')
@@ -1304,7 +1345,7 @@ class Compiler(object):
                 self.emit({'k': 'for', 'var': self.name('N', ctx.r, d), 'a': ['n', 1],
                            'b': ['n', 3], 's': None, 'nx': None}, nl)
         elif t == 'whilenowend':
-            if ctx.in_while or inl:
+            if ctx.in_while or inl or not self.fatal():
                 self.tag(ctx, nl)
             else:
                 self.features.add('while-without-wend')
@@ -1340,6 +1381,10 @@ class Compiler(object):
             stop_e = ['v', bvar]
             nl = False
             self.features.add('bound-in-variable')
+        if st.get('bfrac') and ty == '%' and -32768 < b < 32767:
+            # fractional bound of an integer loop: converted (rounded) once at FOR
+            stop_e = ['n', b + (0.25 if st['bfrac'] > 0 else -0.25)]
+            self.features.add('fractional-bound-int-loop')
         outer = [lp for lp in ctx.loops if not lp['var'].endswith('!')]
         if st.get('bref') is not None and outer and not bvar:
             # triangular loop: the stop bound is an enclosing integer-valued counter (+ offset)
@@ -1357,9 +1402,8 @@ class Compiler(object):
         # close: own NEXT, or share the NEXT atom of the inner loop that ended the body
         eff_step = 1 if s is None else s
         static_zt = (eff_step > 0 and a > b) or (eff_step < 0 and a < b)
-        dynamic_bound = stop_e[0] != 'n' and not bvar
-        if dynamic_bound:
-            static_zt = True        # may be zero-trip: treat like one (no NEXT list, no print after)
+        dynamic_bound = stop_e[0] == 'v' or stop_e[0] == 'b'
+        maybe_zt = static_zt or (dynamic_bound and not bvar)
         named = bool(st.get('named'))
         inner = lp.get('inner_next')      # (line, idx) of a combinable NEXT that ended the body
         if inner is not None and inner[0] is self.cur and inner[1] == len(self.cur.atoms) - 1 \
@@ -1371,11 +1415,11 @@ class Compiler(object):
             self.features.add('next-list')
         else:
             nvar = var if named else None
-            if st.get('wrongnext') and not inl:
+            if st.get('wrongnext') and not inl and self.fatal():
                 nvar = 'ZZ'
                 self.features.add('wrong-next-variable')
             relab = None
-            if st.get('renext') and not inl:
+            if st.get('renext') and not inl and self.fatal():
                 relab = self.label()
                 self.place(relab)
                 self.features.add('goto-next-after-loop')
@@ -1395,15 +1439,16 @@ class Compiler(object):
             if na['slots'][0][0] is None:
                 # a list needs variable names
                 na['slots'][0][0] = fa['var'] if slot == 0 else na['slots'][0][0]
-            if static_zt and not self.case.get('allow_zt_list'):
-                # known finding: zero-trip loop whose NEXT variable is not the last of a list
+            if static_zt and self.case.get('exclude_zt_list'):
+                # (finding fixed in 7a22afc6: zero-trip loop whose NEXT variable is not the last of
+                # a list raised Syntax error; the region is searched again)
                 self.excluded += 1
                 outer_named_ok = False
             if outer_named_ok:
                 ctx.loops[-1]['inner_next'] = (nline, nidx)
         if lp['after'] is not None:
             self.place(lp['after'])
-        if st.get('pa') and not static_zt and s != 0 and (F(b) - F(a)) % F(eff_step) == 0:
+        if st.get('pa') and not maybe_zt and s != 0 and (F(b) - F(a)) % F(eff_step) == 0:
             self.emit({'k': 'pr', 'items': [['v', var]]}, False, inl)
 
     def do_while(self, st, ctx, nl):
@@ -1417,7 +1462,7 @@ class Compiler(object):
         lp = {'kind': 'while', 'var': var, 'after': None}
         self.block(st['body'], ctx.child(loops=ctx.loops + [lp], in_while=True))
         relab = None
-        if st.get('rewend'):
+        if st.get('rewend') and self.fatal():
             relab = self.label()
             self.place(relab)
             self.features.add('goto-wend-after-loop')
@@ -1624,6 +1669,31 @@ class RealResult(object):
             self.kind, [str(x) for x in self.trace], self.errors, self.detail)
 
 
+_SHARED = {}
+
+
+def shared_sandbox():
+    """One scratch tree per process (creating a directory per case dominates the cost on a busy
+    machine); emptied before every use, removed at exit."""
+    import os
+    import atexit
+    import shutil
+    from vlib import harness
+    sb = _SHARED.get(os.getpid())
+    if sb is None:
+        sb = harness.Sandbox()
+        _SHARED.clear()
+        _SHARED[os.getpid()] = sb
+        atexit.register(sb.close)
+    for name in os.listdir(sb.z):
+        path = os.path.join(sb.z, name)
+        if os.path.isdir(path):
+            shutil.rmtree(path, ignore_errors=True)
+        else:
+            os.remove(path)
+    return sb
+
+
 def run_real(prog, directs=(), budget=40000, text=None, session_kwargs=None, add_open=True):
     """Store the rendered program in a fresh session, RUN it, execute the direct lines (lists of
     atoms, or str), close the trace file and read it back."""
@@ -1631,7 +1701,7 @@ def run_real(prog, directs=(), budget=40000, text=None, session_kwargs=None, add
     from vlib import harness
     rr = RealResult()
     lines = ([TRACE_OPEN] if add_open else []) + (text if text is not None else program_text(prog))
-    with harness.Sess(budget=budget, **(session_kwargs or {})) as s:
+    with harness.Sess(sandbox=shared_sandbox(), budget=budget, **(session_kwargs or {})) as s:
         for ln in lines:
             o = s.execute(ln)
             if o.kind != 'ok' or o.errors or o.output.strip():
